@@ -5,3 +5,4 @@ import Gmsm.Props.C11
 import Gmsm.Props.C19
 import Gmsm.Props.C12
 import Gmsm.Props.C07
+import Gmsm.Props.C10
